@@ -11,6 +11,9 @@ all vectors of a call have the same dimension.
 -/
 import SharkVerif.Lemmas.FastSort
 import SharkVerif.Lemmas.Hypervolume
+import SharkVerif.Lemmas.HV3D
+import SharkVerif.Lemmas.Contrib
+import SharkVerif.Model.Contrib3D
 namespace SharkVerif.C13
 open SharkVerif.Pareto SharkVerif.HV
 
@@ -226,5 +229,135 @@ theorem hvWfg_eq_spec (S : List Pt) (r : Pt) (hS : ∀ p ∈ S, leAll p r = true
 
 example : (∀ p ∈ [[1, 1, 1], [0, 2, 2], [1, 1, 1], [2, 0, 3]], leAll p [3, 3, 3] = true) ∧
     hvSpec [[1, 1, 1], [0, 2, 2], [1, 1, 1], [2, 0, 3]] [3, 3, 3] = 9 := by decide
+
+/-! ## HypervolumeCalculator3D (sweep over the third objective with a 2-D staircase)
+
+Model: `Model/HV3D.lean` (`step3` is one iteration of the C++ loop on the `std::map` front, `area`, `volume`,
+`prev_x2`).  Proof: `Lemmas/HV3D.lean` (loop invariant `Inv`: the front is the staircase of the processed points,
+`area` its 2-D cell count, `volume` the number of dominated cells below `prev`). -/
+
+/-- **C13 (3-D sweep)**: on every list ordered by the third coordinate — ties in any order, so for every outcome
+of the unstable `std::sort` — of points strictly inside the reference box, the sweep of `HypervolumeCalculator3D`
+(incl. the branches `right == end`, equal first coordinate, removal of dominated front entries) returns the
+dominated hypervolume.  Duplicates and dominated points allowed. -/
+theorem hv3d_sorted_eq_spec (L : List Pt) (r : Pt) (hsort : L.Pairwise (fun a b => pz a ≤ pz b))
+    (hL : ∀ p ∈ L, p.length = 3) (hr : r.length = 3) (hin : ∀ p ∈ L, inside3 r p = true) :
+    hv3dSorted L r = (hvSpec L r : Int) :=
+  hv3dSorted_eq_spec hsort hL hr hin
+
+/-- **C13 (HypervolumeCalculator3D::operator())**: for every finite list of 3-D points that weakly dominate the
+reference point (points on the boundary of the box included: the entry filter removes exactly the points without
+volume) the returned value is the dominated hypervolume. -/
+theorem hv3d_eq_spec (S : List Pt) (r : Pt) (hS : ∀ p ∈ S, p.length = 3) (hr : r.length = 3)
+    (hle : ∀ p ∈ S, leAll p r = true) : hv3d S r = (hvSpec S r : Int) :=
+  HV.hv3d_eq_spec hS hr hle
+
+/-- non-vacuity: duplicates, equal first coordinates, a dominated point, a point on the boundary of the box -/
+example : (∀ p ∈ [[1, 2, 1], [1, 1, 2], [0, 3, 3], [2, 0, 2], [1, 1, 2], [3, 0, 0]], leAll p [3, 4, 4] = true ∧ p.length = 3) ∧
+    hvSpec [[1, 2, 1], [1, 1, 2], [0, 3, 3], [2, 0, 2], [1, 1, 2], [3, 0, 0]] [3, 4, 4] = 19 := by decide
+
+/-! ## The front end `HypervolumeCalculator::operator()` -/
+
+/-- **C13 (dimension switch of the hypervolume front end)**: in 2 objectives (2-D sweep), 3 objectives (3-D sweep)
+and 5 or more objectives (WFG) the value returned by the modelled `HypervolumeCalculator` is the dominated
+hypervolume, for every finite list of points weakly dominating the reference point.
+`_partial`: 4 objectives dispatch to the HOY recursion, whose model (`Model/HOY.lean`) is tied to the C++ and to
+`hvSpec` by the exact correspondence and the cell-count oracle only — no theorem `hvHoy = hvSpec` yet. -/
+theorem hvDisp_eq_spec_partial (S : List Pt) (r : Pt) (hS : ∀ p ∈ S, p.length = r.length)
+    (hle : ∀ p ∈ S, leAll p r = true) (h4 : r.length ≠ 4) : hvDisp S r = (hvSpec S r : Int) := by
+  unfold hvDisp
+  by_cases he : S.isEmpty = true
+  · have : S = [] := List.isEmpty_iff.mp he
+    subst this; simp [hvSpec_nil]
+  · rw [if_neg he]
+    split
+    · next h => exact HV.hv2d_eq_spec (fun p hp => (hS p hp).trans h) h hle
+    · next h => exact HV.hv3d_eq_spec (fun p hp => (hS p hp).trans h) h hle
+    · next h => exact absurd h h4
+    · exact HV.hvWfg_eq_spec S r hle
+
+example : (∀ p ∈ [[1, 2, 1], [1, 1, 2], [0, 3, 3]], List.length (α := Int) p = [3, 4, 4].length ∧ leAll p [3, 4, 4] = true) ∧
+    [(3 : Int), 4, 4].length ≠ 4 ∧ hvSpec [[1, 2, 1], [1, 1, 2], [0, 3, 3]] [3, 4, 4] = 17 := by decide
+
+/-! ## Hypervolume contributions, least and greatest contributor
+
+`contribSpec S r i = hvSpec S r − hvSpec (S without its i-th entry) r` is the hypervolume lost by removing point `i`. -/
+
+/-- **C13 (selection of the k least / greatest contributors)**: what `std::sort` + truncation (`smallestOf`) and
+`std::sort` + truncation + `std::reverse` (`largestOf`) return: `min k n` pairs in ascending (descending) order of
+the key, a sub-multiset of the computed pairs, every reported key ≤ (≥) every unreported key — for the merge sort of the
+model; `take_sorted_spec`/`drop_sorted_spec` in `Lemmas/Contrib.lean` give the same for **every** key-sorted
+permutation, i.e. every outcome of the unstable `std::sort`/heap selection. -/
+theorem k_smallest_k_largest_spec (cs : List KV) (k : Nat) :
+    ((smallestOf cs k).length = min k cs.length ∧ (smallestOf cs k).Pairwise (fun a b => a.1 ≤ b.1) ∧
+      ∃ rest, (smallestOf cs k ++ rest).Perm cs ∧ ∀ a ∈ smallestOf cs k, ∀ b ∈ rest, a.1 ≤ b.1) ∧
+    ((largestOf cs k).length = min k cs.length ∧ (largestOf cs k).Pairwise (fun a b => b.1 ≤ a.1) ∧
+      ∃ rest, (largestOf cs k ++ rest).Perm cs ∧ ∀ a ∈ largestOf cs k, ∀ b ∈ rest, b.1 ≤ a.1) :=
+  ⟨smallestOf_spec cs k, largestOf_spec cs k⟩
+
+/-- the same for every outcome of an unstable sort: `L` is any key-sorted permutation of the computed pairs -/
+theorem k_smallest_any_sort (cs L : List KV) (hp : L.Perm cs) (hs : L.Pairwise (fun a b => a.1 ≤ b.1)) (k : Nat) :
+    (L.take k).length = min k cs.length ∧ (L.take k).Pairwise (fun a b => a.1 ≤ b.1) ∧
+      ∃ rest, (L.take k ++ rest).Perm cs ∧ ∀ a ∈ L.take k, ∀ b ∈ rest, a.1 ≤ b.1 :=
+  take_sorted_spec hp hs k
+
+/-- **C13 (HypervolumeContribution2D)**: for every mutually non-dominated 2-D set (duplicates allowed) weakly
+dominating the reference point, and for **every** outcome `Z` of the lexicographic `std::sort`, the sentinel-extended
+front yields one pair per point and the key of the pair of point `i` is the hypervolume lost by removing `i`. -/
+theorem contribution2d_eq_spec (S : List Pt) (r : Pt) (hS : ∀ p ∈ S, p.length = 2) (hr : r.length = 2)
+    (hle : ∀ p ∈ S, leAll p r = true) (hnd : ∀ p ∈ S, ∀ q ∈ S, dominates p q = false)
+    (Z : List (Pt × Nat)) (hperm : Z.Perm S.zipIdx) (hsort : Z.Pairwise fun a b => lexLe a b = true) :
+    ((contribs2dGo (px r) (py r) Z).map (·.2)).Perm (List.range S.length) ∧
+    ∀ c ∈ contribs2dGo (px r) (py r) Z, c.1 = contribSpec S r c.2 :=
+  contribs2dGo_eq_spec hS hr hle hnd Z hperm hsort
+
+/-- **C13 (least / greatest contributor in 2-D)**: `smallest(points, 1, ref)` reports `(contribution, index)` of a
+point whose contribution is minimal, `largest(points, 1, ref)` of one whose contribution is maximal, and the reported
+contribution is the hypervolume lost by removing that point. -/
+theorem contribution2d_least_greatest (S : List Pt) (r : Pt) (hne : S ≠ []) (hS : ∀ p ∈ S, p.length = 2)
+    (hr : r.length = 2) (hle : ∀ p ∈ S, leAll p r = true) (hnd : ∀ p ∈ S, ∀ q ∈ S, dominates p q = false) :
+    (∃ i, i < S.length ∧ smallest2d S 1 r = [(contribSpec S r i, i)] ∧ ∀ j, j < S.length → contribSpec S r i ≤ contribSpec S r j) ∧
+    (∃ i, i < S.length ∧ largest2d S 1 r = [(contribSpec S r i, i)] ∧ ∀ j, j < S.length → contribSpec S r j ≤ contribSpec S r i) :=
+  ⟨smallest2d_least_contributor hne hS hr hle hnd, largest2d_greatest_contributor hne hS hr hle hnd⟩
+
+/-- the hypothesis "mutually non-dominated" of the 2-D contribution theorems cannot be dropped (it is the
+precondition in the property text): with a dominated point the routine reports a negative "contribution" -/
+theorem contribution2d_needs_nondominated :
+    ∃ (S : List Pt) (r : Pt), (∀ p ∈ S, p.length = 2) ∧ r.length = 2 ∧ (∀ p ∈ S, leAll p r = true) ∧
+      ¬ ∀ c ∈ contribs2d S r, c.1 = contribSpec S r c.2 :=
+  contribs2d_needs_nondominated
+
+example : (∀ p ∈ [[0, 3], [1, 2], [1, 2], [3, 0]], ∀ q ∈ [[0, 3], [1, 2], [1, 2], [3, 0]], dominates p q = false) ∧
+    (List.range 4).map (contribSpec [[0, 3], [1, 2], [1, 2], [3, 0]] [4, 4]) = [1, 0, 0, 2] := by decide
+
+/-- **C13 (HypervolumeContributionMD)**: with a rank routine that returns the definition ranks and a hypervolume
+routine that returns the dominated hypervolume on the restricted sets, the pair computed for point `i`
+(box volume minus hypervolume of the other points clipped to the box and compacted to rank 1 by the swap loop) is
+`(hypervolume lost by removing i, i)` — for **every** finite set weakly dominating the reference point, dominated points
+and duplicates included (no non-domination hypothesis is needed for this algorithm). -/
+theorem contributionMD_eq_spec (rk : List Pt → List Nat) (hv : List Pt → Pt → Int) (m : Nat)
+    (S : List Pt) (r : Pt) (hS : ∀ p ∈ S, p.length = m) (hr : r.length = m) (hle : ∀ p ∈ S, leAll p r = true)
+    (hrk : ∀ Q, (∀ q ∈ Q, q.length = m) → rk Q = Q.map (rankSpec Q))
+    (hhv : ∀ Q, (∀ q ∈ Q, q.length = m) → (∀ q ∈ Q, leAll q r = true) → hv Q r = (hvSpec Q r : Int)) :
+    contribsMD rk hv S r = (List.range S.length).map fun i => (contribSpec S r i, i) :=
+  contribsMD_eq_spec rk hv m S r hS hr hle hrk hhv
+
+/-- … and its least / greatest contributor -/
+theorem contributionMD_least_greatest (rk : List Pt → List Nat) (hv : List Pt → Pt → Int) (m : Nat)
+    (S : List Pt) (r : Pt) (hne : S ≠ []) (hS : ∀ p ∈ S, p.length = m) (hr : r.length = m)
+    (hle : ∀ p ∈ S, leAll p r = true)
+    (hrk : ∀ Q, (∀ q ∈ Q, q.length = m) → rk Q = Q.map (rankSpec Q))
+    (hhv : ∀ Q, (∀ q ∈ Q, q.length = m) → (∀ q ∈ Q, leAll q r = true) → hv Q r = (hvSpec Q r : Int)) :
+    (∃ i, i < S.length ∧ smallestMD rk hv S 1 r = [(contribSpec S r i, i)] ∧ ∀ j, j < S.length → contribSpec S r i ≤ contribSpec S r j) ∧
+    (∃ i, i < S.length ∧ largestMD rk hv S 1 r = [(contribSpec S r i, i)] ∧ ∀ j, j < S.length → contribSpec S r j ≤ contribSpec S r i) :=
+  ⟨smallestMD_least_contributor rk hv m S r hne hS hr hle hrk hhv, largestMD_greatest_contributor rk hv m S r hne hS hr hle hrk hhv⟩
+
+/-- the hypotheses on `rk` and `hv` are satisfiable by modelled Shark routines: `fastNonDominatedSort` and WFG -/
+theorem contributionMD_fast_wfg (m : Nat) (S : List Pt) (r : Pt) (hS : ∀ p ∈ S, p.length = m)
+    (hr : r.length = m) (hle : ∀ p ∈ S, leAll p r = true) :
+    contribsMD fastSort hvWfg S r = (List.range S.length).map fun i => (contribSpec S r i, i) :=
+  contribsMD_fastSort_wfg m S r hS hr hle
+
+example : (List.range 3).map (contribSpec [[1, 2, 3], [2, 1, 3], [3, 3, 1]] [4, 4, 4]) = [2, 2, 2] := by decide
 
 end SharkVerif.C13
